@@ -1,7 +1,7 @@
 // drv_refine: histories of node displacements, refinement passes, single remeshing operations and compaction on a
 // real cell, with a full dump of the cell store after every event and the operation trace of the guarded hook.
 // line: <tissue case with ONE cell> R lmin lmax swap NT {face type id per face} NE {event}
-//   events: G amp seed | S factor | A axis factor | MOM amp seed | FRESH | REFINE | REBASE | OP kind k   (kind 0 split 1 merge 2 swap)
+//   events: G amp seed | S factor | A axis factor | MOM amp seed | FRESH | REFINE | REBASE | OP kind k   (kind 0 split 1 merge 2 swap) | OPL kind (same, on the first edge whose opposite nodes are linked)
 // out : one section per state, separated by " # ":  EV <name> [EXC what] @ nodes @ faces @ edges @ freeN @ freeF @ trace
 #include "tissue.hpp"
 #include "local_mesh_refiner.hpp"
@@ -113,6 +113,25 @@ int main(){
                             if (kind == 0) lmr.split_edge(e, c, work);
                             else if (kind == 1){ if (lmr.can_be_merged(e, c)) lmr.merge_edge(e, c, work); else name += "-refused"; }
                             else lmr.swap_edge(e, c);
+                        } }
+                    else if (ev == "OPL"){ int kind; in >> kind; name = ev + std::to_string(kind);
+                        // the same single operations on the first edge (in set order) whose two opposite nodes are themselves linked by an
+                        // edge while both end points have at least four neighbours (two non-face 3-cycles through the edge)
+                        if (!dead){
+                            const edge_set& es = c->get_edge_set(); bool found = false; edge e = *es.begin();
+                            for (const edge& x : es){
+                                if (!x.is_manifold()) continue;
+                                const face& f1 = cell_tester::faces(c)[x.f1()]; const face& f2 = cell_tester::faces(c)[x.f2()];
+                                unsigned nc_ = f1.get_opposite_node(x.n1(), x.n2()), nd_ = f2.get_opposite_node(x.n1(), x.n2());
+                                if (!c->get_edge(nc_, nd_).has_value()) continue;
+                                size_t da = 0, db = 0; for (const edge& y : es){ if (y.has_node(x.n1())) da++; if (y.has_node(x.n2())) db++; }
+                                if (da >= 4 && db >= 4){ e = x; found = true; break; }
+                            }
+                            if (!found) name += "-none";
+                            else { edge_set work = es;
+                                if (kind == 0) lmr.split_edge(e, c, work);
+                                else if (kind == 1){ if (lmr.can_be_merged(e, c)) lmr.merge_edge(e, c, work); else name += "-refused"; }
+                                else lmr.swap_edge(e, c); }
                         } }
                     else throw std::runtime_error("unknown event " + ev);
                 } catch (const std::exception& e){ exc = e.what(); for (char& ch : exc) if (ch == ' ' || ch == '@' || ch == '#') ch = '_'; dead = true; }
